@@ -150,7 +150,9 @@ pub fn run(cases_path: &str, report_path: &str, _opts: &[String]) {
                 if v["w1"] != v["w2"] {
                     rep.fail(&format!("idempotence:{}", model), json!({"case_index": ci, "case": case, "w1": v["w1"], "w2": v["w2"]}));
                 }
-                if case["has_other"].as_bool().unwrap_or(false) && !keeps(&v["w1"], &v["d"]) {
+                // every entry of the input that the reader accepted is written back (recognised entries for all
+                // models; unknown entries are only generated for models with a catch-all)
+                if !keeps(&v["w1"], &v["d"]) {
                     let lost: Vec<String> = v["d"]["v"].as_object().map(|m| m.iter().filter(|(k, x)| !v["w1"]["v"].get(k.as_str()).map(|w| keeps(w, x)).unwrap_or(false)).map(|(k, _)| k.clone()).collect()).unwrap_or_default();
                     rep.fail(&format!("preservation:{}:{}", model, lost.join("+")), json!({"case_index": ci, "case": case, "lost": lost, "d": v["d"], "w1": v["w1"]}));
                 }
